@@ -407,6 +407,69 @@ fn custom_cases() -> Vec<CustomCase> {
     v
 }
 
+// ---- D. custom StrGlyphMapping strings -------------------------------------------------------------
+
+#[derive(Clone, Debug, PartialEq, Eq, Hash, Serialize, Deserialize)]
+struct StrMapCase {
+    /// the mapping string: characters, and ranges written as \0 first last
+    data: String,
+    replacement: usize,
+}
+
+/// the characters a StrGlyphMapping string designates, in index order (the documented encoding)
+fn expand_mapping(data: &str) -> Vec<char> {
+    let cs: Vec<char> = data.chars().collect();
+    let mut out = vec![];
+    let mut i = 0;
+    while i < cs.len() {
+        if cs[i] == '\0' && i + 2 < cs.len() {
+            let (a, b) = (cs[i + 1] as u32, cs[i + 2] as u32);
+            for u in a..=b {
+                if let Some(c) = char::from_u32(u) {
+                    out.push(c);
+                }
+            }
+            i += 3;
+        } else {
+            out.push(cs[i]);
+            i += 1;
+        }
+    }
+    out
+}
+
+fn check_strmap(c: &StrMapCase, obs: &mut Obs) {
+    let leaked: &'static str = Box::leak(c.data.clone().into_boxed_str());
+    let m = StrGlyphMapping::new(leaked, c.replacement);
+    let table = expand_mapping(&c.data);
+    obs.mark_nontrivial();
+    obs.class("custom-mapping-string");
+    obs.outcome(&table);
+    if m.chars().collect::<Vec<char>>() != table {
+        obs.fail("custom-mapping-index", format!("chars() yields {} characters, the string designates {}", m.chars().count(), table.len()));
+    }
+    // every scalar value up to U+0180, the mapped characters themselves, and a few beyond
+    let probes = (0u32..0x180).filter_map(char::from_u32).chain(table.iter().copied()).chain(UNMAPPED);
+    for ch in probes {
+        let want = table.iter().position(|x| *x == ch).unwrap_or(c.replacement);
+        let got = m.index(ch);
+        if got != want {
+            obs.fail("custom-mapping-index", format!("mapping {:?} (replacement {}): index({:?}) = {got}, expected {want}", c.data, c.replacement, ch));
+            return;
+        }
+    }
+}
+
+fn strmap_cases() -> Vec<StrMapCase> {
+    let mut v = vec![];
+    for data in ["\0 Z\0az", "\0adx\0yz", " ", "abc", "\0 ~", "\0\u{20}\u{7f}", "\0 /x", "z\0 9", "\0!~", "", "\0 \u{20}", "\0 Z", "\0 ~\0\u{a0}\u{ff}", "0123456789", "\0AZ\0 @", "?\0 >"] {
+        for replacement in [0usize, 1, 40] {
+            v.push(StrMapCase { data: data.to_string(), replacement });
+        }
+    }
+    v
+}
+
 fn run_part(run: &mut Run) {
     let tier = run.tier;
     match run.part.as_str() {
@@ -429,6 +492,7 @@ fn run_part(run: &mut Run) {
                 }
                 v
             }, check_mapping);
+            run.sweep_vec("custom-mapping-strings", "16 StrGlyphMapping strings (single characters, ranges starting at or after the space, ranges ending before or after the tilde, several ranges, empty) x 3 replacement indices: index() of every scalar value below U+0180 and of every mapped character against the expanded string", strmap_cases, check_strmap);
             run.sweep_vec("custom-fonts", "synthetic atlases: character sizes {3x4,5x2,8x8,1x1} x glyphs per row {1,4,16} x spacing {0,1,3} x extra atlas columns {0,w-1} x StrGlyphMapping with ranges/closure mapping with replacement index x 16 colour/decoration sets x 6 strings (one with three lines, CR LF and lines starting with a carriage return), plus a 300-character line for a subset", custom_cases, check_custom);
         }
         "draw-a" => run.sweep_vec("glyphs", "every (built-in font, mapped character) plus 9 unmapped characters, single character and 3-character strings, colour/decoration sets (all 16 in thorough, all for unmapped and a rotating subset for mapped in quick)", || draw_cases(tier, &SUBSETS[..7]), check_draw),
